@@ -1014,6 +1014,9 @@ def judgeC07 (ops : List OpRec) : List String :=
         match c.topic? t with
         | some ts => (List.range ts.parts.length).zip ts.parts |>.map fun (i, p) => (t, ((i : Nat) : Int), p)
         | none => []
+      -- what is judged here: whole-topic assignments of led partitions (explicit partition lists are C19's subject, a
+      -- partition without a leader is outside the statement); otherwise no expectation is formed
+      let parts := if opts.any (fun o => (kv o).1 == "tp") || parts.any (fun x => x.2.2.leader < 0) then [] else parts
       let committed (t : Bytes) (p : Int) : Option Int :=
         if group.isEmpty || storage == "none" then none else
         match c.groups.find? (fun (e : (Bytes × Bytes × Int) × Int) => e.1 == (storeKey storage group, t, p)) with
@@ -1561,6 +1564,29 @@ def judgeC01 (ops : List OpRec) : List String :=
 
 /-! ### C08 -/
 
+/-- the (topic, partition) pairs a consumer built with these options consumes (last call per topic wins, a whole-topic call
+    or an empty list means every partition the cluster has); `none` when the assignment does not resolve -/
+def assignedPairs (c : Cluster) (opts : List String) : Option (List (Bytes × Int)) :=
+  let calls : List (Bytes × Option (List Int)) := opts.filterMap fun o =>
+    let (k, x) := kv o
+    if k == "topic" then (fromHex x).map fun t => (t, none)
+    else if k == "tp" then match x.splitOn ":" with
+      | [t, ps] => (fromHex t).map fun t => (t, some (if ps == "" then [] else (ps.splitOn ",").filterMap (fun (x : String) => x.toInt?)))
+      | _ => none
+    else none
+  let amap : List (Bytes × Option (List Int)) := calls.foldl (fun (m : List (Bytes × Option (List Int))) (x : Bytes × Option (List Int)) =>
+    (m.filter fun (y : Bytes × Option (List Int)) => y.1 != x.1) ++ [x]) []
+  let resolved : List (Option (List (Bytes × Int))) := amap.map fun (x : Bytes × Option (List Int)) =>
+    match c.topic? x.1 with
+    | none => none
+    | some ts =>
+      let all := (List.range ts.parts.length).map fun (i : Nat) => (x.1, (i : Int))
+      match x.2 with
+      | none => some all
+      | some [] => some all
+      | some ps => some (ps.map fun p => (x.1, p))
+  if resolved.any (·.isNone) then none else some (resolved.flatMap fun r => r.getD [])
+
 structure J08 where
   cluster : Cluster := {}
   storage : String := "none"
@@ -1583,7 +1609,8 @@ def judgeC08 (ops : List OpRec) : List String :=
       let storage := (lastOpt opts "storage").getD "none"
       -- a new consumer of the group starts from what the coordinator has stored: marks = stored - 1, clean
       let marks : List ((Bytes × Int) × (Int × Bool)) := c.groups.filterMap fun (e : (Bytes × Bytes × Int) × Int) =>
-        if e.1.1 == storeKey storage group && e.2 != -1 && !group.isEmpty && storage != "none" then some ((e.1.2.1, e.1.2.2), (e.2 - 1, false)) else none
+        if e.1.1 == storeKey storage group && e.2 != -1 && !group.isEmpty && storage != "none"
+            && ((assignedPairs c opts).getD []).contains (e.1.2.1, e.1.2.2) then some ((e.1.2.1, e.1.2.2), (e.2 - 1, false)) else none
       { s with group := group, storage := storage, marks := marks }
     | ["consumer_drop"] => { s with marks := [] }
     | ["consume", t, p, o] =>
